@@ -83,7 +83,7 @@ def gen_term(rng, name, lo, hi, classes):
     return {"name": name, "class": cls, "params": q}
 
 
-def gen_engine(rng, profile="algebraic", activations=("General",), weighted=False, outputs_in_antecedent=True):
+def gen_engine(rng, profile="algebraic", activations=("General",), weighted=False, outputs_in_antecedent=True, refs=False):
     """A random engine description. profile: algebraic | transcendental | mixed."""
     classes = {"algebraic": ALGEBRAIC_TERMS, "transcendental": TRANSCENDENTAL_TERMS + ALGEBRAIC_TERMS, "mixed": ALGEBRAIC_TERMS + TRANSCENDENTAL_TERMS}[profile]
     sharp = rng.random() < 0.25
@@ -100,9 +100,20 @@ def gen_engine(rng, profile="algebraic", activations=("General",), weighted=Fals
         hi = lo + rng.choice([1.0, 4.0, 10.0])
         use_weighted = weighted and rng.random() < 0.6
         if use_weighted:
-            kind = rng.choice(["constant", "monotonic", "mixed"])
+            kind = rng.choice(["constant", "monotonic", "mixed"] + (["references", "references"] if refs else []))
             if kind == "constant":
                 terms = [{"name": f"o{i}{k}", "class": "Constant", "params": {"value": rng.choice([round(rng.uniform(lo, hi), 1), rng.uniform(lo, hi)])}} for k in range(rng.choice([2, 3]))]
+            elif kind == "references":  # Takagi-Sugeno terms that hold a reference to the engine
+                names = [f"in{j}" for j in range(n_in)]
+                terms = []
+                for k in range(rng.choice([2, 3])):
+                    if rng.random() < 0.5:
+                        coeffs = [rng.choice([1.0, 0.5, -2.0, 0.25, 0.0]) for _ in range(n_in)] + ([rng.choice([0.5, -1.0, 2.0])] if rng.random() < 0.7 else [])
+                        terms.append({"name": f"o{i}{k}", "class": "Linear", "params": {"coefficients": coeffs}})
+                    else:
+                        parts = [f"{rng.choice(['2.0', '0.5', '1.25', '3'])} {rng.choice(['*', '/', '+', '-'])} {nm}" for nm in rng.sample(names, rng.randint(1, len(names)))]
+                        formula = f" {rng.choice(['+', '-', '*'])} ".join(f"({q})" if rng.random() < 0.5 else q for q in parts) + rng.choice(["", " + 0.75", " - 1"])
+                        terms.append({"name": f"o{i}{k}", "class": "Function", "params": {"formula": formula}})
             elif kind == "monotonic":
                 terms = [gen_term(rng, f"o{i}{k}", lo, hi, ["Ramp", "SShape", "ZShape"] + (["Sigmoid"] if profile != "algebraic" else [])) for k in range(rng.choice([2, 3]))]
             else:  # both kinds in one variable: which one fires depends on the step (type inference must be per call)
@@ -196,6 +207,10 @@ def build_term(fl, t, mod=None):
     cls = getattr(mod, t["class"])
     if t["class"] == "Discrete":
         return cls(t["name"], list(t["params"]["xy"]), t["params"].get("height", 1.0))
+    if t["class"] == "Linear":
+        return fl.Linear(t["name"], list(t["params"]["coefficients"]))
+    if t["class"] == "Function":
+        return fl.Function(t["name"], t["params"]["formula"])
     return cls(t["name"], **{k: float(v) for k, v in t["params"].items()})
 
 
@@ -265,6 +280,10 @@ def lit_term(fl, t):
         xy = t["params"]["xy"]
         pairs = vlib.coq_list(f"({vlib.fhex(a)}, {vlib.fhex(b)})" for a, b in zip(xy[0::2], xy[1::2]))
         return f"(TDiscrete {q(t['name'])} {pairs} {vlib.fhex(t['params'].get('height', 1.0))})"
+    if t["class"] == "Linear":
+        return f"(TLinear {q(t['name'])} {vlib.coq_list(vlib.fhex(c) for c in t['params']['coefficients'])})"
+    if t["class"] == "Function":
+        return f"(@fn_term float (NumF true []) {q(t['name'])} {q(t['params']['formula'])})"
     import inspect
 
     names = [n for n in inspect.signature(getattr(fl, t["class"]).__init__).parameters if n not in ("self", "name")]
